@@ -12,6 +12,9 @@ CHECKS = {
  "C03": ("two-run re-parse relation monitor with mechanism diagnosis (locate innermost non-fixed-point node)",
          "r2 = T(T(x)) must equal r1 = T(x) (type- and NaN-aware) for generated types incl. unions and data classes; lax outputs on exact domains must satisfy the strict form.",
          "Trusted: values.approx_eq, constraints_ref. Nine mechanism-keyed known findings (lax carry/drift/order, union/xor/and re-resolution) are listed; anything else is a violation.", "§4 C03"),
+ "C12": ("preference monitor at type_transform: subset/agreement relation between flag sets + independent promise predicates; hostile pool x targets exhaustive",
+         "For every (source, target) pair of the hostile pool x 36 targets (quick, exhaustive over the pools) and 4e5 generated sources (thorough): a conversion that succeeds under no_explicit_cast / no_data_loss / both must succeed without flags with an equal same-type value; no_data_loss results must keep the listed promises; no_explicit_cast results must stay inside the documented primitive group.",
+         "Trusted: promise_ndl()/src_groups() in vmon/props/c12.py (written from docs/en/references/options.md). Four mechanism-keyed known findings. Data classes receive runtime flags through __from__ (type_transform keeps a class's own options).", "§4 C12"),
  "C04": ("exception-class monitor at the API boundary + sys.monitoring logical-step watchdog with loop-signature confirmation",
          "Every rejected call must raise ParseError; every call must finish within 3e6 LINE events in utype/ (confirmed at 3e7 with a <=12-line loop signature); failing calls must not have entered the function body / __validate__.",
          "Bounded restatement of 'never loops': budget 3 orders of magnitude above the largest terminating call seen (reported in evidence). C-level hangs are only seen by the wall-clock net (inconclusive).", "§4 C04"),
